@@ -44,6 +44,18 @@ for _pid in ("C01", "C02", "C03", "C04", "C05", "C16"):
         "technique": "TLA+ state machine + ghost model checked by TLC; state-graph replay on the real classes; TLC trace validation of recorded executions",
     }
 
+PROPERTIES["C06"] = {
+    "run": machine_run, "level": "model_checking",
+    "text": "Pair.tla: the product of two independent state machines of one class plus copy/assign; TLC checks in every "
+            "reachable PAIR of states (= every pair of histories over the constants) that operator== as the code computes it "
+            "(size, cached edge count, label-map equality, mutual list inclusion) holds iff the ghosts denote the same graph, "
+            "that it is symmetric and reflexive, and that copies are equal and independent; every product transition is "
+            "executed on two real objects of each class / label kind comparing ==, != in both directions",
+    "note": "exhaustive within small constants (2-3 vertices, 2-3 labels/multiplicities/weights); duplicate-free histories "
+            "as the property states; integer weights only, so order-dependent floating-point rounding in weight sums is not exercised",
+    "technique": "TLA+ product state machine model checked by TLC; product state graph replayed on pairs of real objects",
+}
+
 NOT_APPLICABLE = {
     "C20": "compile-/link-time well-formedness of templates and headers: there is no state, transition or observable "
            "behaviour for a TLA+ specification to describe or for a trace to bind (DESIGN.md section 5)",
